@@ -58,6 +58,10 @@ IdentVecs ==
   \o Cross2(<< "NewDestination", "NewRouterIdentityFromKeysAndCert" >>,
             << << 8, 4 >>, << 4, 0 >>, << 7, 5 >>, << 11, 4 >>, << 8, 65280 >>, << 4, 65534 >>, << 65280, 6 >>, << 65534, 5 >>, << 11, 65280 >>, << 7, 4 >>, << 0, 0 >> >>, LAMBDA fn, p :
       One(B(fn, IdModel(p[1], p[2], 0, 0, 0, p[1] + p[2] + 1) @@ [literal |-> TRUE], "literal")))
+  \* ... and caller-assembled values whose padding is absent, short or long: the wrappers take them, so what they return has to validate,
+  \* serialise and read back like any other value (the lifecycle predicates; nothing says they must be refused)
+  \o Cross3(<< "NewDestination", "NewRouterIdentityFromKeysAndCert" >>, << << 7, 4 >>, << 7, 0 >>, << 0, 0 >> >>, << -400, -304, -1, 1, 80 >>, LAMBDA fn, p, dpad :
+      One(B(fn, IdModel(p[1], p[2], 0, 0, dpad, p[1] + p[2] + 1) @@ [literal |-> TRUE], "literal-padding")))
   \o Cross2(IdFns, << "nilpub", "nilspk" >>, LAMBDA fn, which :
       One(B(fn, IdModel(7, 4, 0, 0, 0, 6) @@ (IF which = "nilpub" THEN [nilpub |-> TRUE] ELSE [nilspk |-> TRUE]), which)))
 
